@@ -47,6 +47,7 @@ class FunSpec:
         ghost=None,
         lemmas=(),
         until=None,
+        since=None,
         callers=None,
         at_call=None,
         cut_ensures=None,
@@ -75,6 +76,10 @@ class FunSpec:
         # statement contract on a PREFIX of the body: the contract covers the statements before the first top-level
         # statement whose source starts with this text; the rest of the body is dropped (and said so in the evidence)
         self.until = until
+        # statement contract on a SUFFIX of the body: execution starts at the first top-level statement whose source starts
+        # with this text; the locals the suffix reads are declared as ghost parameters (`ghost=`) and constrained by `requires`
+        # - i.e. the suffix is proved for ANY values the dropped prefix may have computed
+        self.since = since
         # recursive spec functions that this proof uses only as uninterpreted symbols (no unfolding: fewer, never wrong, facts)
         self.opaque = tuple(opaque)
         # with until=: clauses proved where control falls through to the cut (default: `ensures`; `ensures` then also covers
